@@ -151,6 +151,14 @@ def evaluate(case: Case, tier: str) -> Outcome:
         # (d) same answer sets through both routes, full vocabulary, costs, counts
         diff = oracle.compare(t, b, None, True, True, True)
         if diff is not None:
+
+            def again(alt: bool, inst: str = inst) -> bool:
+                t2, b2 = oracle.solve(opt.text, inst, case.consts, 4 * limit, alt=alt), oracle.solve(opt.result, inst, case.consts, 4 * limit, alt=alt)
+                return t2.status == "ok" and b2.status == "ok" and oracle.compare(t2, b2, None, True, True, True) is not None
+
+            if not oracle.confirmed(again):
+                out.discards.append("solver_configurations_disagree")
+                continue
             return fail("ast_text_differ", diff.detail, inst)
     if out.comparisons == 0 and out.discards:
         out.status, out.reason = "discard", "all_instances:" + out.discards[0]
